@@ -81,6 +81,8 @@ def run(ctx):
                 members.append(('Object %d/settings.xml' % n, P.settings_xml(), 'text/xml')); with_settings.add(n)
             if ctx.rng.random() < 0.6:
                 members.append(('Object %d/Pictures/p.png' % n, b'PIC%d' % n, 'image/png')); extra_files['Object %d/Pictures/p.png' % n] = (b'PIC%d' % n, 'image/png')
+            if (i + n) % 3 == 0:      # a preview picture of its own, in its own folder
+                members.append(('Object %d/Thumbnails/thumbnail.png' % n, b'THUMB%d' % n, 'image/png')); extra_files['Object %d/Thumbnails/thumbnail.png' % n] = (b'THUMB%d' % n, 'image/png')
             if ctx.rng.random() < 0.3:
                 members.append(('Object %d/data.bin' % n, b'BIN%d' % n, 'application/octet-stream')); extra_files['Object %d/data.bin' % n] = (b'BIN%d' % n, 'application/octet-stream')
             if ctx.rng.random() < 0.3:
